@@ -123,6 +123,10 @@ def main(argv):
         out = os.path.join(tmp, 'shard%d.json' % i)
         cmd = [sys.executable, os.path.abspath(__file__), prop, tier,
                '--shard', '%d/%d' % (i, nsh), '--out', out, '--budget', str(budget)]
+        if nsh > 1 and i == nsh - 1:
+            # the last shard runs with assert statements stripped (python -O): a property that rests on an assert
+            # in the library does not hold for users who run optimised
+            cmd.insert(1, '-O')
         logp = os.path.join(tmp, 'shard%d.log' % i)
         lf = open(logp, 'w')
         procs.append((i, out, logp, lf,
@@ -189,6 +193,7 @@ def main(argv):
         'counters': dict(sorted(stats.counters.items())),
         'maxima': dict(sorted(stats.maxima.items())),
         'shards': nsh,
+        'shards_run_with_python_O': 1 if nsh > 1 else 0,
         'shards_failed': len(dead),
         'known_findings_reobserved': sorted(known_live),
         'notes': stats.notes + lines,
